@@ -160,7 +160,15 @@ class Player:
                 return {"where": where, "doc": d, "expected": exp, "got": got}
         return None
 
-    def send(self, m):
+    def long_text(self):
+        """text of a content change the server cannot apply: Server.tla's outcome (document forgotten, the rest of the
+        notification dropped) does not depend on it, so any text is a rendering of it - here a long one in which most byte
+        offsets are not character boundaries, with a seeded alignment"""
+        self.n_long = getattr(self, "n_long", 0) + 1
+        k = (self.k + self.n_long) % 4
+        return "x" * k + "\u4e2d" * 30 + "\U0001f4a3" * 12 + "\u00e9" * 25 + "\n" + "\u211d" * 40
+
+    def send(self, m, pre=None):
         s, d = self.s, m["d"]
         k = m["k"]
         td = {"uri": self.uri(d)} if d else None
@@ -171,8 +179,13 @@ class Player:
             s.notify("textDocument/didClose", {"textDocument": td})
         elif k == "change":
             chs = []
-            for c in m["chs"]:
+            rejected = pre is not None and pre == ABSENT
+            for ci, c in enumerate(m["chs"]):
                 t = render(c["t"], self.tab)
+                if pre is not None and not rejected and ci == 0 and change_class(pre, c) not in ("valid", "full"):
+                    rejected = True
+                if rejected and not c["full"] and (self.k + ci) % 2 == 0:
+                    t = self.long_text()
                 chs.append({"text": t} if c["full"] else {"range": {"start": pos(c["s"]), "end": pos(c["e"])}, "text": t})
             s.notify("textDocument/didChange", {"textDocument": {"uri": td["uri"], "version": 2}, "contentChanges": chs})
         elif k == "req":
@@ -232,7 +245,7 @@ class Player:
                 if bad:
                     return dict(culprit(), what="state"), bad
                 self.last_sent = i
-                self.send(st["m"])
+                self.send(st["m"], st["pre"]["text"].get(st["m"]["d"]) if st["m"]["k"] == "change" else None)
             bad = self.check_obs(script["final"], "after the last message")
             if bad:
                 return dict(culprit(), what="state"), bad
